@@ -247,13 +247,19 @@ func (k *KDC) Handle(transport string, raw []byte) []byte {
 	k.Requests = append(k.Requests, r)
 	if k.ErrorReply != nil {
 		if code := k.ErrorReply(&req); code != nil {
-			return k.errReply(*code, &req, nil)
+			var edata []byte
+			if (*code == 24 || *code == 25) && len(req.Body.ETypes) > 0 {
+				// a conformant KDC accompanies these codes with METHOD-DATA (RFC 4120 5.9.1)
+				edata = krbmsg.EncodeMethodData([]krbmsg.PAData{{Type: 19, Value: krbmsg.EncodeETypeInfo2([]krbmsg.ETypeInfo2Entry{{EType: req.Body.ETypes[0]}})}, {Type: 2, Value: []byte{}}})
+			}
+			return k.errReply(*code, &req, edata)
 		}
 	}
 	if req.PVNO != 5 {
 		k.violate("pvno %d", req.PVNO)
 	}
-	if k.seenNonces[req.Body.Nonce] {
+	if k.seenNonces[req.Body.Nonce] && r.Kind != "AS+PA" {
+		// (the retry of an AS-REQ with pre-authentication data may keep its nonce)
 		k.violate("%s request reuses nonce %d", r.Kind, req.Body.Nonce)
 	}
 	k.seenNonces[req.Body.Nonce] = true
